@@ -46,6 +46,43 @@ def indexed_accessors(exp):
     return out
 
 
+def struct_accessors(exp):
+    """struct-valued accessors of UpdatePlayer (`set_x(&mut self, v: crate::<exp>::S, index: I)` / `x(&self, index: I) -> Option<S>`) with the
+    fields of S re-read from world/<exp>/<s>.rs: [(setter, getter, struct, index type, [(field, rust type)])]"""
+    src = open(os.path.join(REPO, f"wow_world_messages/src/helper/{exp}/update_mask/impls.rs")).read()
+    m = re.search(r"^impl UpdatePlayer \{\n(.*?)^\}", src, re.S | re.M)
+    out = []
+    for fm in re.finditer(r"pub fn (set_\w+)\(&mut self, \w+: crate::" + exp + r"::(\w+), index: (\w+)\) \{", m.group(1) if m else ""):
+        st, sname, idx = fm.group(1), fm.group(2), fm.group(3)
+        if not re.search(r"pub fn " + st[4:] + r"\(&self, index: " + idx + r"\) -> Option<crate::" + exp + "::" + sname + ">", m.group(1)):
+            continue
+        snake = re.sub(r"(?<!^)(?=[A-Z])", "_", sname).lower()
+        f = os.path.join(REPO, f"wow_world_messages/src/world/{exp}/{snake}.rs")
+        if not os.path.exists(f):
+            continue
+        sm = re.search(r"pub struct " + sname + r" \{\n(.*?)\n\}", open(f).read(), re.S)
+        fields = re.findall(r"pub (\w+): ([^,\n]+),", sm.group(1)) if sm else []
+        out.append((st, st[4:], sname, idx, fields))
+    return out
+
+
+def value_expr(ty, k):
+    """Rust expression of a value of type `ty` derived from the request's seed `s` (u32) and the field position k"""
+    if ty == "u32":
+        return f"s.wrapping_mul(2654435761).wrapping_add({k * 977 + 1})"
+    if ty == "u16":
+        return f"(s.wrapping_mul(40503).wrapping_add({k * 7919 + 3}) as u16)"
+    if ty == "u8":
+        return f"(s.wrapping_mul(167).wrapping_add({k * 31 + 5}) as u8)"
+    if ty == "Guid":
+        return f"Guid::new(((s as u64) << 24) | {k + 1})"
+    am = re.fullmatch(r"\[(\w+); (\d+)\]", ty)
+    if am:
+        return "[" + ", ".join(value_expr(am.group(1), k * 16 + j + 1) for j in range(int(am.group(2)))) + "]"
+    # an enum of the base crate: the (s mod 40)-th declared value
+    return f"match pick::<wow_world_messages::EXP::{ty}>(s.wrapping_add({k})) {{ Some(x) => x, None => return \"noenumerator\".into() }}"
+
+
 def doc_table(version_heading):
     """{object class: {FIELD: (offset, size, TYPE)}} from update-mask.md for one version section"""
     txt = open(os.path.join(REPO, "wowm_language/src/types/update-mask.md")).read()
@@ -168,6 +205,32 @@ def gen_harness():
             out.append("            Ok((w, rt))")
             out.append("        })()),")
     out += ["        _ => None,", "    }", "}"]
+    # struct-valued accessors: set, read back through the getter, write, decode the written message
+    out += ["", "fn pick<E: TryFrom<u32>>(s: u32) -> Option<E> { (0..4096u32).filter_map(|x| E::try_from(x).ok()).nth((s % 40) as usize) }", "",
+            "/// `umx <exp> <accessor> <index> <seed>` -> `ok get=<0|1> rt=<same|diff|err..> words=<n>`",
+            "pub fn um_struct(exp: &str, acc: &str, index: u32, s: u32) -> String {", "    match (exp, acc) {"]
+    for exp in ("vanilla", "tbc", "wrath"):
+        for (st, gt, sname, idx, fields) in struct_accessors(exp):
+            init = ", ".join(f"{fn_}: {value_expr(ty, k).replace('EXP', exp)}" for k, (fn_, ty) in enumerate(fields))
+            out.append(f'        ("{exp}", "{st}") => {{')
+            out.append(f"            if wow_world_messages::{exp}::{idx}::try_from(index as u8).is_err() {{ return \"noindex\".into(); }}")
+            out.append(f"            let ix = || wow_world_messages::{exp}::{idx}::try_from(index as u8).ok().unwrap();")
+            out.append(f"            let v = wow_world_messages::{exp}::{sname} {{ {init} }};")
+            out.append(f"            let mut m = wow_world_messages::{exp}::UpdatePlayer::new();")
+            out.append(f"            m.{st}(v, ix());")
+            out.append(f"            let got = m.{gt}(ix()) == Some(v);")
+            out.append(f"            let b = wow_world_messages::{exp}::UpdatePlayer::builder().{st}(v, ix()).finalize();")
+            out.append(f"            let got_b = b.{gt}(ix()) == Some(v);")
+            out.append(f"            let mask = wow_world_messages::{exp}::UpdateMask::Player(m);")
+            if exp == "wrath":
+                out.append(f"            let msg = wow_world_messages::{exp}::SMSG_UPDATE_OBJECT {{ objects: vec![wow_world_messages::{exp}::Object::Values {{ guid1: Guid::new(0), mask1: mask }}] }};")
+            else:
+                out.append(f"            let msg = wow_world_messages::{exp}::SMSG_UPDATE_OBJECT {{ has_transport: 0, objects: vec![wow_world_messages::{exp}::Object::Values {{ guid1: Guid::new(0), mask1: mask }}] }};")
+            out.append("            let mut w = Vec::new();")
+            out.append(f"            if let Err(e) = wow_world_messages::{exp}::ServerMessage::write_unencrypted_server(&msg, &mut w) {{ return format!(\"err write {{e}}\"); }}")
+            out.append(f"            format!(\"ok get={{}} getb={{}} frame={{}}\", got as u8, got_b as u8, crate::hex(&w))")
+            out.append("        }")
+    out += ['        _ => "bad-op".into(),', "    }", "}"]
     text = "\n".join(out) + "\n"
     path = os.path.join(VERIF, "harness", "world", "src", "gen_um.rs")
     if not os.path.exists(path) or open(path).read() != text:
